@@ -287,6 +287,8 @@ type frame struct {
 	fc     *FuncContract
 	site   ssa.CallInstruction
 	lets   map[string]cval
+	prefix string // obligation label prefix of an inlined activation
+	silent bool   // no obligations (evaluation of contract expressions)
 }
 
 func (t *Trans) newFrame(fn *ssa.Function, top bool, depth int) *frame {
@@ -301,9 +303,10 @@ func (f *frame) vname(v ssa.Value) string {
 }
 
 func (f *frame) addObl(kind, label, reach, goal string, cl *Clause, pos token.Pos, props []string) *Obligation {
-	if !f.top {
+	if f.silent {
 		return nil
 	}
+	label = f.prefix + label
 	t := f.t
 	o := &Obligation{Fn: t.topKey, Kind: kind, Label: label, Reach: reach, Goal: goal, Clause: cl, Props: props, B: t.B, Expect: "unsat"}
 	if pos.IsValid() {
@@ -318,7 +321,7 @@ func (f *frame) addObl(kind, label, reach, goal string, cl *Clause, pos token.Po
 }
 
 func (f *frame) safetyObl(kind, label, reach, goal string, pos token.Pos) {
-	if !f.top || !f.t.safety {
+	if f.silent || !f.t.safety {
 		return
 	}
 	f.addObl(kind, label, reach, goal, nil, pos, nil)
